@@ -80,6 +80,7 @@ func (s *Sync) Release() {
 func (s *Sync) Reset() { s.vc = nil }
 
 type accessRec struct {
+	keep    unsafe.Pointer // keeps the allocation alive for the execution: its address cannot be reused by another object
 	loc     string
 	lastW   VC
 	lastWBy string
@@ -139,7 +140,7 @@ func Access(addr unsafe.Pointer, write bool, loc string, site string) {
 	k := uintptr(addr)
 	r := e.accesses[k]
 	if r == nil {
-		r = &accessRec{loc: loc, reads: map[int]VC{}, readBy: map[int]string{}}
+		r = &accessRec{keep: addr, loc: loc, reads: map[int]VC{}, readBy: map[int]string{}}
 		e.accesses[k] = r
 	}
 	me := site
@@ -170,4 +171,40 @@ func (e *Exec) race(r Race) {
 	}
 	e.raceSeen[k] = true
 	e.res.Races = append(e.res.Races, r)
+}
+
+// AccessElem records an access to an element whose address is computed by p (an index expression evaluated a second
+// time, ahead of the statement that uses it): p runs under recover, an out-of-range index or nil base records nothing.
+func AccessElem(p func() unsafe.Pointer, write bool, loc string, site string) {
+	e := cur()
+	if e == nil || !e.opt.TrackHB {
+		return
+	}
+	var addr unsafe.Pointer
+	func() {
+		defer func() { recover() }()
+		addr = p()
+	}()
+	if addr != nil {
+		Access(addr, write, loc, site)
+	}
+}
+
+// AccessAppend records the write append(s, ...) makes into the spare capacity of s (nothing when it must reallocate).
+func AccessAppend[T any](s []T, loc string, site string) {
+	e := cur()
+	if e == nil || !e.opt.TrackHB || len(s) >= cap(s) {
+		return
+	}
+	Access(unsafe.Pointer(&s[: len(s)+1 : cap(s)][len(s)]), true, loc, site)
+}
+
+// AccessSlice records an access to the first element of s (one pseudo-location per backing array position 0 of the
+// slice window): used for copy() and for byte slices handed to code that is not instrumented.
+func AccessSlice[T any](s []T, write bool, loc string, site string) {
+	e := cur()
+	if e == nil || !e.opt.TrackHB || len(s) == 0 {
+		return
+	}
+	Access(unsafe.Pointer(&s[0]), write, loc, site)
 }
